@@ -51,6 +51,7 @@ def run_whip(ctx, path, var, dtype, limit, out, pool_src):
 def run_case(ctx):
     src = ctx.src
     common.draw_env(ctx)
+    common.prelude(ctx)
     m = world.gen_world(src, force_3d=True, special_ok=True)
     path, _ = common.materialise(ctx, m)
     var = src.choice("var", m.fields)
